@@ -97,7 +97,7 @@ fn dispatch(case: &str, ctx: &mut Ctx, one: Option<&str>, rng: &mut Rng, budget:
         "shard_edge" => cases_shard::run(case, ctx, one, rng, budget),
         "select_all" | "select_big" => cases_select::run(case, ctx, one, rng, budget),
         "vfilter" => cases_vfilter::run(case, ctx, one, rng, budget),
-        "lenders" | "lenders_take" => cases_lenders::run(case, ctx, one, rng, budget),
+        "lenders" | "lenders_take" | "lenders_selfcons" => cases_lenders::run(case, ctx, one, rng, budget),
         "rank9" | "rank_all" => cases_rank::run(case, ctx, one, rng, budget),
         "bfv_ops" | "bfv_copy" | "bfv_unaligned" | "bfv_apply" | "bfv_misc" | "bfv_chunks" => cases_bfv::run(case, ctx, one, rng, budget),
         _ => { eprintln!("unknown case {}", case); std::process::exit(2); }
